@@ -196,20 +196,10 @@ impl ConstantFolding {
             BinaryOp::Add => Some(ScalarValue::Int64(left.checked_add(right)?)),
             BinaryOp::Subtract => Some(ScalarValue::Int64(left.checked_sub(right)?)),
             BinaryOp::Multiply => Some(ScalarValue::Int64(left.checked_mul(right)?)),
-            BinaryOp::Divide => {
-                if right == 0 {
-                    None
-                } else {
-                    Some(ScalarValue::Int64(left / right))
-                }
-            }
-            BinaryOp::Modulo => {
-                if right == 0 {
-                    None
-                } else {
-                    Some(ScalarValue::Int64(left % right))
-                }
-            }
+            // checked: `i64::MIN / -1` and `i64::MIN % -1` overflow and would
+            // panic the optimizer; like `x / 0` they are left to the executor.
+            BinaryOp::Divide => Some(ScalarValue::Int64(left.checked_div(right)?)),
+            BinaryOp::Modulo => Some(ScalarValue::Int64(left.checked_rem(right)?)),
             BinaryOp::Eq => Some(ScalarValue::Boolean(left == right)),
             BinaryOp::NotEq => Some(ScalarValue::Boolean(left != right)),
             BinaryOp::Lt => Some(ScalarValue::Boolean(left < right)),
